@@ -199,7 +199,11 @@ def check_concat(case):
                 raise violation("C18/concat/job-failed", "job %r on corpus %s exits with %d: %s" % (describe(job), tag, res["code"], res["stderr_tail"]))
             outs.append(res)
         kind = job["kind"]
-        dec = lambda res, name: base64.b64decode(res["files"][name])
+
+        def dec(res, name):
+            if name not in res["files"]:
+                raise violation("C18/concat/output-missing", "job %r exits with 0 but wrote no file %r (files: %r)" % (describe(job), name, sorted(res["files"])))
+            return base64.b64decode(res["files"][name])
         if kind == "transform":
             fa, fb, fab = (dec(r, "dest") for r in outs)
             if job["dest_fmt"] == "tigerxml":
@@ -216,6 +220,8 @@ def check_concat(case):
         elif kind == "analysis":
             if job["task"] == "GapDegree":
                 pa, pb, pab = (parse_gapdegree(r["stdout"]) for r in outs)
+                if pa is None or pb is None or pab is None:
+                    raise violation("C18/concat/statistics-unparsable", "GapDegree printed no summary for one of A, B, A+B (%r)" % (describe(job),))
                 summed = (pa[0] + pb[0], pa[1] + pb[1], dict(Counter(pa[2]) + Counter(pb[2])), dict(Counter(pa[3]) + Counter(pb[3])))
                 if tuple(pab) != summed:
                     raise violation("C18/concat/statistics", "GapDegree(A+B) = %r, sum of parts %r" % (pab, summed))
@@ -234,6 +240,11 @@ def check_concat(case):
                         stream.write(base64.b64decode(data))
                 workfiles.append(d)
             fmt = job["dest_fmt"]
+            need = {"pmcfg": ["g.pmcfg", "g.lex"], "rcg": ["g.rcg", "g.lex"], "lopar": ["g.gram", "g.lex"]}[fmt]
+            for res in outs:
+                for name in need:
+                    if name not in res["files"]:
+                        raise violation("C18/concat/output-missing", "job %r exits with 0 but wrote no file %r (files: %r)" % (describe(job), name, sorted(res["files"])))
             decode = {"pmcfg": lambda d: CG.decode_pmcfg(os.path.join(d, "g.pmcfg"), "utf-8"), "rcg": lambda d: CG.decode_rcg(os.path.join(d, "g.rcg"), "utf-8"),
                       "lopar": lambda d: CG.decode_lopar_gram(os.path.join(d, "g.gram"), "utf-8")}[fmt]
             ga, gb, gab = (decode(d) for d in workfiles)
@@ -256,7 +267,8 @@ def check_concat(case):
 # ----------------------------------------------------------------------------------------------- generators
 
 TRANS = [[], [], ["root_attach"], ["negra_mark_heads", "boyd_split", "raising"], ["punctuation_verylow"], ["add_topnode"],
-         ["negra_mark_heads", "binarize"], ["punctuation_delete"], ["substitute_terminals"], ["insert_terminals"], ["root_attach", "punctuation_root"]]
+         ["negra_mark_heads", "binarize"], ["punctuation_delete"], ["substitute_terminals"], ["insert_terminals"], ["root_attach", "punctuation_root"],
+         ["filter_by_length"], ["filter_by_length"]]
 
 
 @st.composite
@@ -290,6 +302,8 @@ def job_strategy(draw, kinds=("transform", "transform", "grammar", "analysis", "
                 lines.append([draw(st.sampled_from(sids)), k + 1, draw(st.sampled_from(["NEU", "x", "Y"])), draw(st.sampled_from(["PX", "NN"]))])
             job["termfile"] = lines
             job["params"] = ["quiet"]
+        if job["trans"] == ["filter_by_length"]:
+            job["params"] = ["filteroperator:%s" % draw(st.sampled_from(["lt", "gt", "eq"])), "filtervalue:%d" % draw(st.integers(1, 5))]
         if draw(st.integers(0, 3)) == 0 and job["dest_fmt"] in ("export", "discobrackets", "brackets"):
             job["dest_opts"] = ["gf"]
     elif kind == "grammar":
@@ -459,6 +473,9 @@ def check_interleave(case):
             src = os.path.join(workdir, "s%d.%s" % (i, spec["src_fmt"]))
             write_input(src, spec["src_fmt"], spec["trees"])
             params = {"quiet": True}
+            for item in spec.get("params", []):
+                key, _, val = item.partition(":")
+                params[key] = (int(val) if val.isdigit() else val) if val else True
             if spec.get("termfile") is not None:
                 tf = os.path.join(workdir, "terms_%d_%d.txt" % (os.getpid(), i))
                 with open(tf, "w", encoding="utf-8") as stream:
@@ -473,6 +490,8 @@ def check_interleave(case):
         def step(spec, params, tree, out, gram, lex):
             for name in spec["trans"]:
                 tree = call("C18/interleave/" + name, getattr(transform, name), tree, **params)
+                if tree is None:
+                    return      # filtered out
             call("C18/interleave/extract", grammar.extract, tree, gram, lex)
             call("C18/interleave/" + spec["dest_fmt"], getattr(treeoutput, spec["dest_fmt"]), tree, out)
 
@@ -620,3 +639,66 @@ def gen_concat_api(ctx):
 
 
 UNITS.append(Unit("concat_api", gen_concat_api, check_concat_api, shards=(2, 8)))
+
+
+# ----------------------------------------------------------------------------------------------- concatenation through the real entry point, in-process
+
+def check_concat_inproc(case):
+    """`treetools transform` (same script through runpy, in this process) on A, B and A+B: sentence-local processing means
+    output(A+B) = output(A) ++ output(B), also when a transformation drops sentences"""
+    from vlib import cli as CLI
+    workdir = tempfile.mkdtemp(prefix="c18c_")
+    try:
+        outs = []
+        for tag, trees in (("a", case["a"]), ("b", case["b"]), ("ab", case["a"] + case["b"])):
+            src = os.path.join(workdir, tag + ".export")
+            write_input(src, "export", trees)
+            dest = os.path.join(workdir, tag + ".out")
+            argv = ["transform", src, dest, "--src-format", "export", "--src-opts", "quiet", "--dest-format", case["dest_fmt"]]
+            if case["trans"]:
+                argv += ["--trans"] + case["trans"]
+            if case["params"]:
+                argv += ["--params"] + case["params"]
+            res = CLI.run_inproc(argv)
+            if res.code != 0:
+                raise violation("C18/concat-inproc/job-failed", "transform %r on corpus %s exits with %d: %s" % (argv[5:], tag, res.code, res.err[-300:]))
+            with open(dest, "rb") as stream:
+                outs.append(stream.read())
+        if case["dest_fmt"] == "tigerxml":
+            la, lb, lab = ([(c["sid"], M.canon(c["root"])) for c in CT.decode_tigerxml(x)] for x in outs)
+            same = la + lb == lab
+        else:
+            same = outs[0] + outs[1] == outs[2]
+        if not same:
+            raise violation("C18/concat-inproc/transform", "output for A+B differs from output(A) + output(B): --trans %r --params %r -> %s"
+                            % (case["trans"], case["params"], case["dest_fmt"]))
+    finally:
+        shutil.rmtree(workdir, ignore_errors=True)
+    return True
+
+
+def gen_concat_inproc(ctx):
+    quick = ctx.tier == "quick"
+    tree = S.tree_model(max_tokens=6, disc=0.5, words=st.sampled_from(["a", "b", ",", "Haus", "ä"]), labels=st.sampled_from(["S", "NP", "VP"]),
+                        pos=st.sampled_from(["NN", "VB", "$,"]), edges=st.sampled_from(["HD", "NK", "--"]))
+
+    @st.composite
+    def cases(draw):
+        a = draw(st.lists(tree, min_size=1, max_size=4))
+        b = draw(st.lists(tree, min_size=1, max_size=4))
+        for i, t in enumerate(a + b):
+            t["sid"] = 10 + i
+        trans, params = draw(st.sampled_from([(["filter_by_length"], None), (["filter_by_length"], None), ([], []), (["root_attach"], []),
+                                               (["negra_mark_heads", "boyd_split", "raising"], []), (["punctuation_delete"], ["quiet"]),
+                                               (["add_topnode", "filter_by_length"], None)]))
+        if params is None:
+            params = ["filteroperator:%s" % draw(st.sampled_from(["lt", "gt", "eq"])), "filtervalue:%d" % draw(st.integers(1, 5))]
+        return {"a": a, "b": b, "trans": trans, "params": params, "dest_fmt": draw(st.sampled_from(["export", "discobrackets", "tigerxml", "terminals"]))}
+
+    def body(case):
+        check_concat_inproc(case)
+        ctx.count(key=case, nontrivial=True, classes=["concat-inproc:" + ("filter" if "filter_by_length" in case["trans"] else "plain")])
+    ctx.hyp(cases(), body, max_examples=120 if quick else 1500)
+
+
+UNITS.append(Unit("concat_inproc", gen_concat_inproc, check_concat_inproc, shards=(2, 8)))
